@@ -55,6 +55,14 @@ def run(ctx):
     good = list(c01.CORPUS) + list(c03.CORPUS) + list(c12.STATEFUL)
     for _ in range(n):
         good.append(g.program())
+    # type-dispatched words right after pops on deep stacks of mixed types (the cached stack profile, C11's histories):
+    # a wrong dispatch is an invalid cast, which only this build can see as a memory error
+    from . import c11
+    types = "csqaf"
+    for _ in range(n // 2):
+        w = rng.choice(c11.UNARY + c11.BINARY)
+        tail = [rng.choice(c11.POOL[rng.choice(types)]) for _ in range(1 if w in c11.UNARY else 2)]
+        good.append(c11.history(rng, rng.choice([3, 4, 5, 6, 7]), tail) + " " + w)
     bad = [m.decode("latin-1") for m in (c14.mutate(rng, g.program()) for _ in range(n // 2))] + c14.UNTERM + c14.INTLITS
     if ctx.replay:
         import json
@@ -98,7 +106,12 @@ def run(ctx):
         return done, ""
     # programs of `good` that do not compile belong with the rejected ones
     plain = zwcorr.Harness(ctx)
-    recs, _ = plain.run_impl_robust(["Q - " + zwcorr.hx(p.encode("latin-1", "replace")) for p in good])
+    recs, pcrashes = plain.run_impl_robust(["Q - " + zwcorr.hx(p.encode("latin-1", "replace")) for p in good])
+    for idx, perr in pcrashes[:5]:
+        # a crash / abort / failed assertion of the plain build is a finding of its own, not a reason to drop the program
+        reports += 1
+        ctx.violation("the library crashed or aborted on the program %r: %s" % (good[idx], perr.strip()[-300:]),
+                      {"stream": "C13-valid-program", "input": good[idx], "stderr": perr[-3000:]})
     rejected_here = [p for p, r in zip(good, recs) if (r.err or "").startswith("compile")]
     good = [p for p, r in zip(good, recs) if not (r.err or "").startswith("compile") and r.err not in ("timeout", "crash")]
     bad = rejected_here + bad
